@@ -68,6 +68,15 @@ CHECKS = {
     note=('Trusted: Coq kernel, ExtrOcamlBasic, OCaml driver, Python harness (generators, renderer, classifier). Modelled, not verified: parse_data, data_stmt + action (one line, no TAB), Pass1 grouping, get_data_label_index/gen_read/gen_restore, DataDevice; int()/float() through Models/NumFmt.v. '
           'Inside the correspondence only: grammar of labels/READ/RESTORE/SUB, data section encoding, PRINT. Guards: plain_text, parts non-empty, type ids 1..5.'),
     technique='Rocq proof over hand-written Gallina models + differential correspondence judged by an extracted Coq specification'),
+ 'C18': dict(
+    category='proof',
+    text=('Rocq theorems about the executable model of INPUT (Models/Input.v): prompt text, accept-iff (relative to the numerals int()/float() read) and soundness for the strict numeral grammar, retry for every number of rejected lines (induction), '
+          'assignment order consumed by the generated stores, decode(encode) of the argument protocol; no-effect-of-rejection proved for clean rejections (_partial) and refuted in general (D13), proved in full for the repaired variant exec_input_fixed; D29 refutation witnesses. '
+          'Tied to the code by a differential correspondence with the real _exec_input (all types x 83-field alphabet x histories <= 3, malformed stacks) and with compiled INPUT statements at 6 configurations judged against the Coq specification.'),
+    design_ref='DESIGN.md 5/C18',
+    note=('Trusted: Coq kernel, ExtrOcamlBasic, OCaml driver, Python harness (event normalisation, signature classification). Modelled, not verified: _exec_input, gen_input, parse_input; stores, arrays/records and the grammar only through the compiled-program correspondence. '
+          'Specification choices: trimming = str.strip white space; plain decimal numerals only.'),
+    technique='Rocq proof over hand-written Gallina model + differential correspondence against the implementation'),
 }
 
 ALL = ['C%02d' % i for i in range(1, 21)]
